@@ -77,3 +77,17 @@ Definition S_link_load_ra : Prop := forall le st f text g sel rest fuel x l,
 Definition S_link_load_wrong_endianness : Prop := forall le st f text s offs fuel x,
   to_props le st f = Some text ->
   load_seq (negb le) text s = None /\ load_ra (negb le) text offs s fuel x = None.
+
+(** ** The same for the output of PARALLEL compression (C04): for every legal cut sequence,
+    every per-chunk valid selection and every completion order of the workers, the graph
+    loaded from the properties text and the spliced stream is the input graph. *)
+From WG Require Import Par.Splice.
+Definition S_link_load_par : Prop := forall le st f text cuts g sels arrival rest,
+  to_props le st f = Some text -> stats_for g st -> Forall inc g ->
+  let cs := fl_codes f in let p := params_of_flags f in
+  legal_cuts cuts (nlen g) = true ->
+  valid_sels p (segments cuts g) sels = true ->
+  Permutation arrival (seq 0 (length cuts - 1)) ->
+  exists bs lens,
+    par_comp le cs p cuts g sels arrival = SpliceOk bs lens (nsum (map nlen g)) (nlen g)
+    /\ load_seq le text (bs ++ rest) = Some (g, rest).
